@@ -73,8 +73,8 @@ Definition final_entry (b : mbeh) (m : mmap) : option mentry :=
     end
   else
     match g with
-    | RRes i true => Some (MRes i true)
-    | RJunk i true => Some (MJunk i true)
+    | RRes i t => Some (MRes i t)
+    | RJunk i t => Some (MJunk i t)
     | _ => None
     end.
 
@@ -168,12 +168,13 @@ Proof.
   destruct (mget (mb_name b) m) as [[? ?|? ?|? ?|]|]; discriminate.
 Qed.
 
-(* accepted (truthy) and not run: exactly the regenerated results are kept, at the end of the dict *)
-Lemma step_accepted_kept : forall b m id t0 i, mget (mb_name b) m = Some (MRaw id t0) ->
-  mb_regen b = RRes i true -> ran b = false ->
-  exists tr, run_module b m = Ok (mremove (mb_name b) m ++ [(mb_name b, MRes i true)], tr).
+(* accepted and not run: exactly the regenerated results are kept, at the end of the dict - whatever
+   their truth value (`if results is not None:`) *)
+Lemma step_accepted_kept : forall b m id t0 i t, mget (mb_name b) m = Some (MRaw id t0) ->
+  mb_regen b = RRes i t -> ran b = false ->
+  exists tr, run_module b m = Ok (mremove (mb_name b) m ++ [(mb_name b, MRes i t)], tr).
 Proof.
-  intros b m id t0 i Hg Hr Hran.
+  intros b m id t0 i t Hg Hr Hran.
   pose proof (mremove_absent (mb_name b) m) as Habs.
   unfold run_module, regen_phase. rewrite Hg, Hr. rewrite (mset_absent _ _ _ Habs).
   unfold ran in Hran. destruct (mb_in_all b); simpl in *.
@@ -283,13 +284,23 @@ Proof.
   eexists. eexists. split; [discriminate|]. split; [reflexivity|]. split; [vm_compute; reflexivity|reflexivity].
 Qed.
 
-(* the full "accepted results are kept" clause fails for results objects that are falsy (FC11a) *)
-Lemma accepted_falsy_dropped :
-  exists b m m' tr id t0 i, mget (mb_name b) m = Some (MRaw id t0) /\ mb_regen b = RRes i false /\
-    ran b = false /\ beh_contract b = true /\ run_module b m = Ok (m', tr) /\ forall e, ~ In (mb_name b, e) m'.
+(* the class of the repaired finding FC11a: accepted results that are FALSY (TTAResults without codons) and a
+   module that does not run - the entry found under the module's name afterwards is exactly the regenerated
+   results object, and with it the map can be written out by dump_records as far as this module is concerned *)
+Lemma accepted_falsy_kept : forall b m m' tr id t0 i, mget (mb_name b) m = Some (MRaw id t0) ->
+  mb_regen b = RRes i false -> ran b = false -> run_module b m = Ok (m', tr) ->
+  mget (mb_name b) m' = Some (MRes i false) /\ In (mb_name b, MRes i false) m' /\
+  forall e, In (mb_name b, e) m' -> e = MRes i false.
 Proof.
-  exists (mkBeh 1 (RRes 5 false) false false (UNew 7 true)), [(1, MRaw 0 true)], [], [1; 1; 0], 0, true, 5.
-  repeat split; try reflexivity. intros e [].
+  intros b m m' tr id t0 i Hg Hr Hran H.
+  destruct (step_accepted_kept b m id t0 i false Hg Hr Hran) as [tr' H'].
+  rewrite H in H'. inversion H'. subst. clear H'.
+  pose proof (mremove_absent (mb_name b) m) as Habs.
+  split; [apply mget_app_absent; exact Habs|]. split.
+  - apply in_or_app. right. left. reflexivity.
+  - intros e Hin. apply in_app_or in Hin. destruct Hin as [Hin|[Hin|[]]].
+    + apply Habs in Hin. simpl in Hin. congruence.
+    + inversion Hin. reflexivity.
 Qed.
 
 (* run_detection's assertion never trips when the modules honour their interface *)
@@ -408,9 +419,9 @@ Proof.
 Qed.
 
 Lemma final_is_expected : forall b m, beh_contract b = true -> beh_no_raise b = true ->
-  falsy_dropped m b = false -> final_entry b m = expected_entry b m.
+  final_entry b m = expected_entry b m.
 Proof.
-  intros b m Hc Hr Hf. unfold beh_contract in Hc. unfold beh_no_raise in Hr. unfold falsy_dropped, had_raw in Hf.
+  intros b m Hc Hr. unfold beh_contract in Hc. unfold beh_no_raise in Hr.
   unfold final_entry, expected_entry, had_raw.
   destruct (ran b); destruct (mb_run b) as [u s|u s| |k];
     destruct (mget (mb_name b) m) as [[? ?|? ?|? ?|]|]; try destruct (mb_regen b) as [|? [|]|? [|]|?];
@@ -489,12 +500,8 @@ Lemma analysis_meets_spec : forall bs m m' tr, guard bs m = true -> analyse_reco
   spec_final bs m m' (dump_ok m') = true.
 Proof.
   intros bs m m' tr G H. unfold guard, applicable in G.
-  repeat rewrite andb_true_iff in G. destruct G as [[[[[Hraw Hndk] Hndn] Hc] Hr] Hcls].
+  repeat rewrite andb_true_iff in G. destruct G as [[[[Hraw Hndk] Hndn] Hc] Hr].
   apply nodupb_NoDup in Hndk. apply nodupb_NoDup in Hndn.
-  assert (Hf : forall b, In b bs -> falsy_dropped m b = false).
-  { intros b Hb. unfold finding_class in Hcls. destruct (existsb (falsy_dropped m) bs) eqn:E; [discriminate|].
-    destruct (falsy_dropped m b) eqn:E2; [|reflexivity].
-    assert (existsb (falsy_dropped m) bs = true) by (apply existsb_exists; eauto). congruence. }
   unfold spec_final. repeat rewrite andb_true_iff. repeat split.
   - apply forallb_forall. intros b Hb.
     rewrite (seq_mget_visited _ _ _ _ H Hndn _ Hb).
@@ -502,7 +509,6 @@ Proof.
     + apply oentry_eqb_refl.
     + exact (proj1 (forallb_forall _ _) Hc _ Hb).
     + exact (proj1 (forallb_forall _ _) Hr _ Hb).
-    + exact (Hf _ Hb).
   - apply forallb_forall. intros k Hk.
     destruct (zmem k (names_of bs)) eqn:E; [reflexivity|]. simpl.
     rewrite (seq_mget_other _ _ _ _ _ H); [apply oentry_eqb_refl|].
@@ -566,7 +572,7 @@ Qed.
 Lemma pipeline_total : forall mode bs m, guard bs m = true -> exists m' tr, pipeline mode bs m = Ok (m', tr).
 Proof.
   intros mode bs m G. unfold guard, applicable in G.
-  repeat rewrite andb_true_iff in G. destruct G as [[[[[Hraw Hndk] Hndn] Hc] Hr] Hcls].
+  repeat rewrite andb_true_iff in G. destruct G as [[[[Hraw Hndk] Hndn] Hc] Hr].
   apply nodupb_NoDup in Hndn.
   destruct (seq_total bs m Hndn Hc Hr) as [m' [tr H]].
   - intros b Hb. apply raw_or_absentb_sound. exact (proj1 (forallb_forall _ _) Hraw _ Hb).
